@@ -223,6 +223,12 @@ static void fam_k7(int thorough) {	// hooks H1/H2: normalisation and window slid
 			for (int part = 0; part < 2; part++) for (size_t L = 100; L <= 3000; L += 700) { memcpy(inb, part ? PD : PD + ps - L, L); inlen = L; snprintf(in_name, sizeof in_name, "copy-of-preset-dict-%s:len%zu", part ? "head" : "tail", L); roundtrip(&c); }
 			preset_dict = NULL; }
 		lzma_verif_lz_reserve_cap = 0; }
+	// H2 only: incompressible input several windows long (LZMA2 then stores whole chunks of up to 64 KiB taken from the window after it has moved)
+	for (int v = 0; v < 4; v++) { if (!take()) continue; lzma_verif_lz_reserve_cap = 2048;
+		set_lzma(&OL[0], 4096, 3, 0, 2, v & 1 ? LZMA_MODE_NORMAL : LZMA_MODE_FAST, 16, v & 1 ? LZMA_MF_BT4 : LZMA_MF_HC3, 0); config c; cfg_lzma(&c, v < 2 ? EN_STREAM : EN_RAW, LZMA_FILTER_LZMA2, &OL[0]); strcat(c.name, " incompressible H2:reserve-cap=2048"); n_cfg++;
+		static const size_t LL[] = { 20000, 66000, 131072, 200001 }; for (int li = 0; li < 4; li++) { in_lcg(LL[li], 7 + (uint32_t)li); roundtrip(&c); }
+		c.inchunk = 4099; c.outchunk = 777; in_lcg(150000, 3); roundtrip(&c);
+		lzma_verif_lz_reserve_cap = 0; }
 #else
 	(void)thorough;
 #endif
